@@ -148,7 +148,7 @@ def check_result_maps(chk, cf):
                 # the default False is stored for every address unconditionally in the loop
                 fk, fv, fpc = falses[0]
                 ok = ok and cn.show(fk) == EACH and \
-                    not [c for c in fpc[len(pre):] if c[0] != "inloop"]
+                    not [c for c in fpc[len(pre):] if c[0] not in ("inloop", "fact")]
                 detail = f"True under {f_show(cond)}; required {f_show(want)}"
             chk.ob("C03.L3.maps",
                    f"SubnetScan: result.{field}[a] is True exactly for "
